@@ -730,9 +730,10 @@ class Array:
         return self._apply_op_to_all_elements(operator.add, other)
 
     def __rsub__(self, other: Union[int, float]) -> Array:
-        # i - A == (-A) + i
-        neg = self._apply_op_to_all_elements(operator.neg, None)
-        return neg._apply_op_to_all_elements(operator.add, other)
+        # i - A, computed per element (negating first would reject every unsigned item)
+        def rsub(a, b):
+            return b - a
+        return self._apply_op_to_all_elements(rsub, other)
 
     # Reverse operators between a scalar and something that can be a BitArray.
 
